@@ -165,6 +165,12 @@ func (pc *predCtx) operand(e ast.Expr) (string, string) {
 			if p, ok := pc.maskPars[v]; ok {
 				return p, ""
 			}
+			// a local that stands for one expression (allComps := &m.allComps[evt])
+			if fn := m.EnclosingFunc(v.Pos()); fn != nil && !v.IsField() {
+				if defs := localDefsOf(m, fn, v); len(defs) == 1 {
+					return pc.operand(defs[0])
+				}
+			}
 		}
 	case *ast.SelectorExpr:
 		if fld := m.FieldOf(x); fld != nil {
@@ -1258,42 +1264,98 @@ func c08r3(c *core.Ctx) {
 		{"observerData.hasWith", "observerManager.allWith", "observerData.withMask", "observerManager.anyNoWith"},
 		{"observerData.hasComps", "observerManager.allComps", "observerData.compsMask", "observerManager.anyNoComps"},
 	} {
-		found := false
+		// Formulated on paths: the fold is reached only when the observer has the mask, the wildcard flag is set only
+		// when it has not, and every normal path passes one of the two unless it leaves under a test of the event family.
+		var folds, flags []ast.Node
 		core.InspectNoLits(reg.Body, func(n ast.Node) bool {
-			is, ok := n.(*ast.IfStmt)
-			if !ok || fieldOfSel(is.Cond) != pair[0] || is.Else == nil {
-				return true
-			}
-			thenOK, elseOK := false, false
-			ast.Inspect(is.Body, func(x ast.Node) bool {
-				if call, ok := x.(*ast.CallExpr); ok && len(call.Args) == 1 {
-					if sel, ok := ast.Unparen(call.Fun).(*ast.SelectorExpr); ok && sel.Sel.Name == "OrI" {
-						if ix, ok := ast.Unparen(sel.X).(*ast.IndexExpr); ok && fieldOfSel(ix.X) == pair[1] {
-							arg := ast.Unparen(call.Args[0])
-							if u, ok := arg.(*ast.UnaryExpr); ok {
-								arg = u.X
-							}
-							if fieldOfSel(arg) == pair[2] {
-								thenOK = true
-							}
+			switch x := n.(type) {
+			case *ast.CallExpr:
+				if len(x.Args) != 1 {
+					return true
+				}
+				sel, ok := ast.Unparen(x.Fun).(*ast.SelectorExpr)
+				if !ok {
+					return true
+				}
+				k, cal, _ := m.Callee(x)
+				if k != core.CallStatic || cal == nil || !strings.HasPrefix(cal.Recv, "bitMask") || !strings.HasSuffix(cal.Name, ".OrI") {
+					return true
+				}
+				if ix, ok := ast.Unparen(sel.X).(*ast.IndexExpr); ok && fieldOfSel(ix.X) == pair[1] {
+					arg := ast.Unparen(x.Args[0])
+					if u, ok := arg.(*ast.UnaryExpr); ok {
+						arg = u.X
+					}
+					if fieldOfSel(arg) == pair[2] {
+						folds = append(folds, x)
+					}
+				}
+			case *ast.AssignStmt:
+				if len(x.Lhs) == 1 && len(x.Rhs) == 1 {
+					if ix, ok := ast.Unparen(x.Lhs[0]).(*ast.IndexExpr); ok && fieldOfSel(ix.X) == pair[3] {
+						if tv, ok := m.Info.Types[x.Rhs[0]]; ok && tv.Value != nil && tv.Value.String() == "true" {
+							flags = append(flags, x)
 						}
 					}
 				}
-				return true
-			})
-			ast.Inspect(is.Else, func(x ast.Node) bool {
-				if as, ok := x.(*ast.AssignStmt); ok && len(as.Lhs) == 1 {
-					if ix, ok := ast.Unparen(as.Lhs[0]).(*ast.IndexExpr); ok && fieldOfSel(ix.X) == pair[3] {
-						elseOK = true
-					}
-				}
-				return true
-			})
-			if thenOK && elseOK {
-				found = true
 			}
 			return true
 		})
+		hasAtom := func(truth bool) func(*core.Func, core.Atom) bool {
+			return func(_ *core.Func, at core.Atom) bool {
+				return fieldOfSel(at.Expr) == pair[0] && at.Truth == truth
+			}
+		}
+		underAtom := func(nodes []ast.Node, truth bool) bool {
+			in := map[ast.Node]bool{}
+			for _, n := range nodes {
+				in[n] = true
+			}
+			spec := core.GuardSpec{
+				Only:      reg,
+				GuardAtom: hasAtom(truth),
+				Needs: func(_ *core.Func, x ast.Node) []core.Witness {
+					if in[x] {
+						return []core.Witness{{What: "aggregate"}}
+					}
+					return nil
+				},
+				SkipCallee: func(*core.Func) bool { return true },
+			}
+			return len(m.MustPrecede(spec).Unguarded[reg]) == 0
+		}
+		found := len(folds) > 0 && len(flags) > 0 && underAtom(folds, true) && underAtom(flags, false)
+		if found {
+			isOne := map[ast.Node]bool{}
+			for _, n := range append(append([]ast.Node{}, folds...), flags...) {
+				isOne[n] = true
+			}
+			var evTest func(e ast.Expr) bool
+			evTest = func(e ast.Expr) bool {
+				switch x := ast.Unparen(m.Inline(ast.Unparen(e))).(type) {
+				case *ast.UnaryExpr:
+					return x.Op == token.NOT && evTest(x.X)
+				case *ast.BinaryExpr:
+					switch x.Op {
+					case token.LAND, token.LOR:
+						return evTest(x.X) && evTest(x.Y)
+					case token.EQL, token.NEQ:
+						isEv := func(y ast.Expr) bool {
+							for _, z := range exprChain(m, reg, y, 0) {
+								if tv, ok := m.Info.Types[z]; ok && fieldOfSel(z) != "" && core.NamedName(tv.Type) == "EventType" {
+									return true
+								}
+							}
+							return false
+						}
+						return isEv(x.X) || isEv(x.Y)
+					}
+				}
+				return false
+			}
+			eventExits := guardedExits(m, reg, func(at core.Atom) bool { return evTest(at.Expr) })
+			found = passedOnAllPathsExcept(m, reg, func(n ast.Node) bool { return isOne[n] }, eventExits)
+		}
 		subject := reg.Name + ": aggregate " + pair[1]
 		if found {
 			c.OK("C08/R3", subject, c.At(reg.Pos()), "aggregate union folded from the observer's own mask, wildcard flag set otherwise")
@@ -1440,9 +1502,13 @@ func c08r4(c *core.Ctx) {
 					}
 				}
 			case *ast.RangeStmt:
-				ix, ok := ast.Unparen(x.X).(*ast.IndexExpr)
-				if !ok || fieldOfSel(ix.X) != "observerManager.observers" {
-					continue
+				if ix, ok := ast.Unparen(x.X).(*ast.IndexExpr); !ok || fieldOfSel(ix.X) != "observerManager.observers" {
+					// or the very slice that the shortening store has just put there
+					id := identOf(x.X)
+					sid := identOf(flat[shortIdx].(*ast.AssignStmt).Rhs[0])
+					if id == nil || sid == nil || m.Info.ObjectOf(id) != m.Info.ObjectOf(sid) || len(flat[shortIdx].(*ast.AssignStmt).Rhs) != 1 {
+						continue
+					}
 				}
 				// body: if !obs.hasX { anyNoX = true; break }; acc.OrI(&obs.xMask)
 				sawWild, sawOr := false, false
